@@ -180,6 +180,40 @@ func genC17Err(e *emitter, tier string, rng *rand.Rand) {
 		e.stat(gen)
 		e.emit(map[string]any{"k": "errpos", "src": hx(src), "file": hx(file), "srcs": hs, "err": errj, "span": lineSpan(src, a, b), "gen": gen, "key": src})
 	}
+	// (round 8) one faulty text under several names: in one load, and in consecutive loads of one process —
+	// each error names the script it was loaded as
+	for _, t := range []string{"p(1)\nx = (1 + ]\n", "x = nosuch()\n", "p(1)\n\nx = \"abc\n", "for x in [1] {\n  break\n}\ncontinue\n", "y = 2\nx = {1: 2}\n"} {
+		lines := strings.Split(t, "\n")
+		// the statement at fault is on the last non-empty line
+		last := len(lines) - 2
+		a := len(strings.Join(lines[:last], "\n"))
+		if last > 0 {
+			a++
+		}
+		for _, names := range [][]string{{"m.p", "n.p"}, {"n.p", "m.p"}, {"first.p"}, {"second.p"}, {"lib/first.p", "first.p"}} {
+			scs := []scriptSrc{}
+			for _, n := range names {
+				scs = append(scs, scriptSrc{n, t})
+			}
+			out := loadV1(loadCase{Scripts: scs, Order: names})
+			if recs, ok := out["scripts"].([]any); ok {
+				for _, r := range recs {
+					rec, _ := r.(map[string]any)
+					var ej any
+					if rec["check_err"] != nil {
+						ej = rec["check_err"]
+					} else if rec["parse_err"] != nil {
+						ej = rec["parse_err"]
+					}
+					nameHex, _ := rec["name"].(string)
+					name := unhexs(nameHex)
+					if ej != nil && name != "" {
+						emit(t, "errpos-same-text", a, a+len(lines[last]), ej, name, map[string]string{name: t})
+					}
+				}
+			}
+		}
+	}
 	for _, b := range bases {
 		mark, lo, ro := "@", loadOff, runOff
 		if strings.Contains(b, "#") {
